@@ -21,14 +21,20 @@ Fixpoint scil_go (s : str) (control_sequence : bool) : bool :=
   end.
 Definition special_char_islower (sc : str) : bool := scil_go (skipn 1 sc) true.
 
-Fixpoint von_scan (ts : list tok) : bool :=
+(* prev == ('{', 1) *)
+Definition is_open1 (t : tok) : bool :=
+  Nat.eqb (snd t) 1 && match fst t with [c] => N.eqb c c_lbrace | _ => false end.
+
+(* the loop of is_von_name over scan_bibtex_string(string) (after the fix 82be377): [po] says that the
+   previous token was ('{', 1); only then a level-1 token starting with a backslash is a special character *)
+Fixpoint von_scan (ts : list tok) (po : bool) : bool :=
   match ts with
   | [] => false
   | (t, l) :: rest =>
     match l, t with
-    | O, [c] => if is_alpha c then is_lower c else von_scan rest
-    | 1, b :: _ => if N.eqb b c_bslash then special_char_islower t else von_scan rest
-    | _, _ => von_scan rest
+    | O, [c] => if is_alpha c then is_lower c else von_scan rest (is_open1 (t, l))
+    | 1, b :: _ => if N.eqb b c_bslash && po then special_char_islower t else von_scan rest (is_open1 (t, l))
+    | _, _ => von_scan rest (is_open1 (t, l))
     end
   end.
 
@@ -39,7 +45,7 @@ Definition is_von_name (s : str) : res bool :=
   | c :: _ =>
     if is_upper c then Ok false
     else if is_lower c then Ok true
-    else do ts <- scan s; Ok (von_scan ts)
+    else do ts <- scan s; Ok (von_scan ts false)
   end.
 
 (* find_pos(lst, pred): index of the first item satisfying pred, else len(lst) *)
